@@ -140,7 +140,7 @@ CanEmpty(g) ==
   LET o == Op(g) IN
   CASE o = "just" -> g[2] = <<>>
     [] o \in {"any", "oneof", "noneof", "sel", "tree"} -> FALSE
-    [] o \in {"end", "empty", "probe", "cfgjust"} -> TRUE
+    [] o \in {"end", "empty", "probe", "cfgjust", "cfgjustr"} -> TRUE
     [] o = "cust" -> g[2] = 0 /\ g[3]
     [] o \in {"then", "ithen", "theni"} -> CanEmpty(g[2]) /\ CanEmpty(g[3])
     [] o = "delim" -> CanEmpty(g[2]) /\ CanEmpty(g[3]) /\ CanEmpty(g[4])
@@ -185,7 +185,7 @@ WFStrat(s) ==
     [] Op(s) \in {"skipuntil", "retry"} -> WF(s[2]) /\ WF(s[3]) /\ ~CanEmpty(s[2])
 WF(g) ==
   LET o == Op(g) IN
-  CASE o \in {"just", "any", "oneof", "noneof", "sel", "end", "empty", "cust", "probe", "cfgjust", "ref", "tree"} -> TRUE
+  CASE o \in {"just", "any", "oneof", "noneof", "sel", "end", "empty", "cust", "probe", "cfgjust", "cfgjustr", "ref", "tree"} -> TRUE
     [] o \in {"then", "ithen", "theni", "or", "andis", "thenctx", "ignctx", "nested"} -> WF(g[2]) /\ WF(g[3])
     [] o = "delim" -> WF(g[2]) /\ WF(g[3]) /\ WF(g[4])
     [] o = "padded" -> WF(g[2]) /\ WF(g[3])
@@ -207,7 +207,7 @@ IsNode(x) == /\ DOMAIN x # {} /\ 1 \in DOMAIN x
 HasOp(g, ops) ==
   LET o == Op(g) IN
   \/ o \in ops
-  \/ CASE o \in {"just", "any", "oneof", "noneof", "sel", "end", "empty", "cust", "probe", "cfgjust", "ref", "tree"} -> FALSE
+  \/ CASE o \in {"just", "any", "oneof", "noneof", "sel", "end", "empty", "cust", "probe", "cfgjust", "cfgjustr", "ref", "tree"} -> FALSE
        [] o \in {"then", "ithen", "theni", "or", "andis", "thenctx", "ignctx", "nested", "padded"} -> HasOp(g[2], ops) \/ HasOp(g[3], ops)
        [] o = "delim" -> HasOp(g[2], ops) \/ HasOp(g[3], ops) \/ HasOp(g[4], ops)
        [] o \in {"group", "grouparr", "choice", "choicev"} -> AnyHasOp(g[2], ops)
@@ -227,7 +227,7 @@ RECURSIVE SizeSeq(_)
 SizeSeq(s) == IF s = <<>> THEN 0 ELSE Size(Head(s)) + SizeSeq(Tail(s))
 Size(g) ==
   LET o == Op(g) IN
-  CASE o \in {"just", "any", "oneof", "noneof", "sel", "end", "empty", "cust", "probe", "cfgjust", "ref", "tree"} -> 1
+  CASE o \in {"just", "any", "oneof", "noneof", "sel", "end", "empty", "cust", "probe", "cfgjust", "cfgjustr", "ref", "tree"} -> 1
     [] o \in {"then", "ithen", "theni", "or", "andis", "thenctx", "ignctx", "nested", "padded", "sep", "foldl", "foldr", "recover", "skipuntil", "retry"} -> 1 + Size(g[2]) + Size(g[3])
     [] o = "delim" -> 1 + Size(g[2]) + Size(g[3]) + Size(g[4])
     [] o \in {"group", "grouparr", "choice", "choicev"} -> 1 + SizeSeq(g[2])
